@@ -268,7 +268,7 @@ func scalarCase(rc *rec, line []byte, out *vh.Out, st *stats) {
 				if math.IsNaN(want) || math.IsInf(want, 0) {
 					return true // undefined point: discarded
 				}
-				if math.Abs(o.st.V-want) > tol*(1+math.Abs(want)) {
+				if !(math.Abs(o.st.V-want) <= tol*(1+math.Abs(want))) { // NaN observed: fails
 					fail(variant, "value", vh.M{"term_value": fmtF(want)})
 					return false
 				}
